@@ -597,7 +597,20 @@ func specialSpanScreen(c *specialCtx) {
 			var bytes []byte
 			resizeTo := [2]int{0, 0}
 			n := 1 + r.intn(max(H, W)+2)
-			switch r.intn(14) {
+			switch r.intn(17) {
+			case 14, 15, 16:
+				// a stretch of printable text in one read: the reader cuts it into runs that fit the
+				// rest of the row, writeString writes each (also across the right edge, wrap on or off)
+				var sb strings.Builder
+				for j, m := 0, 1+r.intn(W+4); j < m; j++ {
+					if r.chance(1, 4) {
+						sb.WriteString(pick(r, chars))
+					} else {
+						sb.WriteByte(byte('a' + r.intn(26)))
+					}
+				}
+				op, a, b = "text", hex.EncodeToString([]byte(sb.String())), "0"
+				bytes = []byte(sb.String())
 			case 0, 1, 2, 3:
 				ch := pick(r, chars)
 				rn := []rune(ch)[0]
